@@ -23,33 +23,7 @@ def _run_apalache(workdir, module, inv, timeout):
     return None, out[-3000:], time.time() - t0
 
 
-def check_vesting(workdir, nres, chunk=20, limit=300, timeout=600):
-    """Every recorded split must satisfy ovNew = SplitOVq(ov, 0, y, x, u, FALSE) and every recorded send ov = NewOV(amount, free)."""
-    wd = os.path.join(workdir, "apalache")
-    os.makedirs(wd, exist_ok=True)
-    for f in ("DecArith.tla", "VestingMath.tla"):
-        shutil.copy(os.path.join(SPEC, f), os.path.join(wd, f))
-    splits = (nres.get("splits") or [])
-    # the directed (lifted) steps first, then the others, capped
-    def stride(xs, n):
-        if len(xs) <= n or n <= 0:
-            return xs
-        k = len(xs) / float(n)
-        return [xs[int(i * k)] for i in range(n)]
-    nsend = max(8, limit // 4)
-    lifted = stride([s for s in splits if s["source"] == "lifted"], (limit - nsend) // 3)
-    others = stride([s for s in splits if s["source"] != "lifted"], limit - nsend - len(lifted))
-    splits = lifted + others
-    # (the recorder cycles through classes of free fractions: a fixed stride would alias with the cycle)
-    allsends = list(nres.get("sends") or [])
-    random.Random(len(allsends)).shuffle(allsends)
-    generic = [x for x in allsends if x["free"] not in ("0", "1" + "0" * 18)]
-    sends = (generic[:max(0, nsend - 2)] + [x for x in allsends if x not in generic][:2]) or allsends[:nsend]
-    rels = []
-    for s in splits:
-        rels.append(("split", s, "VM!SplitOVq(%s, 0, %d, %d, %s, FALSE) = %s" % (s["ov"], s["y"], s["x"], s["u"], s["ov_new"])))
-    for s in sends:
-        rels.append(("send", s, "VM!NewOV(%s, %s) = %s" % (s["amount"], s["free"], s["ov"])))
+def _check_vesting_batch(wd, rels, chunk, timeout):
     lines = ["---- MODULE Num_Vesting ----", "EXTENDS Integers", "VM == INSTANCE VestingMath WITH P <- " + P18, "VARIABLE", "  \\* @type: Int;", "  dummy",
              "Init == dummy = 0", "Next == UNCHANGED dummy"]
     chunks = []
@@ -87,6 +61,49 @@ def check_vesting(workdir, nres, chunk=20, limit=300, timeout=600):
                         break
             if len(res["bad"]) >= 5:
                 break
+    return res
+
+
+def check_vesting(workdir, nres, chunk=20, limit=300, timeout=600):
+    """Every recorded split must satisfy ovNew = SplitOVq(ov, 0, y, x, u, FALSE) and every recorded send ov = NewOV(amount, free)."""
+    wd = os.path.join(workdir, "apalache")
+    os.makedirs(wd, exist_ok=True)
+    for f in ("DecArith.tla", "VestingMath.tla"):
+        shutil.copy(os.path.join(SPEC, f), os.path.join(wd, f))
+    splits = (nres.get("splits") or [])
+    # the directed (lifted) steps first, then the others, capped
+    def stride(xs, n):
+        if len(xs) <= n or n <= 0:
+            return xs
+        k = len(xs) / float(n)
+        return [xs[int(i * k)] for i in range(n)]
+    nsend = max(8, limit // 4)
+    lifted = stride([s for s in splits if s["source"] == "lifted"], (limit - nsend) // 3)
+    others = stride([s for s in splits if s["source"] != "lifted"], limit - nsend - len(lifted))
+    splits = lifted + others
+    # (the recorder cycles through classes of free fractions: a fixed stride would alias with the cycle)
+    allsends = list(nres.get("sends") or [])
+    random.Random(len(allsends)).shuffle(allsends)
+    generic = [x for x in allsends if x["free"] not in ("0", "1" + "0" * 18)]
+    sends = (generic[:max(0, nsend - 2)] + [x for x in allsends if x not in generic][:2]) or allsends[:nsend]
+    rels = []
+    for s in splits:
+        rels.append(("split", s, "VM!SplitOVq(%s, 0, %d, %d, %s, FALSE) = %s" % (s["ov"], s["y"], s["x"], s["u"], s["ov_new"])))
+    for s in sends:
+        rels.append(("send", s, "VM!NewOV(%s, %s) = %s" % (s["amount"], s["free"], s["ov"])))
+    # Apalache holds the whole module in memory (1 200 relations exhausted a 6 GB heap): batches of at most 200 relations
+    all_rels = rels
+    res = {"steps": len(all_rels), "wall_s": 0.0, "bad": [], "error": None}
+    for b0 in range(0, len(all_rels), 200):
+        rels = all_rels[b0:b0 + 200]
+        r1 = _check_vesting_batch(wd, rels, chunk, timeout)
+        res["wall_s"] = round(res["wall_s"] + r1["wall_s"], 1)
+        res["bad"] += r1["bad"]
+        if r1["error"]:
+            res["error"] = r1["error"]
+            break
+        if len(res["bad"]) >= 5:
+            break
     shutil.rmtree(os.path.join(wd, "_apalache-out"), ignore_errors=True)
     return res
 
